@@ -26,7 +26,7 @@ PLAN = {
     "C11": {"runs": [("conc", "interleave", 120, 3000, []), (S, "burst", 400, 10000, []), (S, "mixed", 80, 2000, [])]},
     "C12": {"runs": [("ack", "polls", 2, 3, []), (S, "burst", 160, 4000, []), (S, "mixed", 80, 2000, [])],
             "rule": "every interleaving of done() with the polls of 1-2 tasks on the real acknowledgement (schedule points inside done/poll), every schedule prefix compared with CachedModel/Ack.lean; plus Layer A histories with polls; non-trivial = a schedule in which a poll overlaps done()"},
-    "C13": {"runs": [(S, "burst", 400, 10000, []), (S, "mixed", 80, 2000, [])]},
+    "C13": {"runs": [("locks", "stress", 500, 4000, []), (S, "burst", 400, 10000, []), (S, "mixed", 80, 2000, [])]},
     "C14": {"runs": [("pure", "tables", 1, 1, []), (S, "reads", 320, 8000, [])],
             "rule": "exhaustive tables: all 256 byte values x 3 neighbours x 7 positions for Row::increment_at/get_at/half/clear, next_power_2 around every power of two, FrequencyCounter / TinyLFU streams for 30 counter sizes; plus Layer A histories with the consumer; non-trivial = a case that exercises the sketch"},
     "C15": {"runs": [("conc", "interleave", 120, 3000, []), ("stress", "threads", 400, 3000, []), (S, "reads", 400, 10000, []), (S, "mixed", 80, 2000, [])]},
